@@ -6,7 +6,9 @@ offset) interleaved with groups of `send_cemi` calls (several concurrently via t
 one task awaiting several in a row). `random.random` inside xknx.io.routing is replaced
 by generated values. Every op gets its own sub-millisecond offset (op index / 64 ms) so
 that no two events of different origin ever coincide in virtual time - the oracle never
-depends on how the loop breaks ties.
+depends on how the loop breaks ties. The one deliberate exception is the "race" op: a
+busy frame delivered (by a loop tick hook) in the loop iteration right after the pause
+timer fired, i.e. after the flow control became ready and before the held senders run.
 
 Reference model (written from the property statement, the constants and the docstrings
 of routing.py citing KNX 03.08.05 §2.3.5):
@@ -40,14 +42,14 @@ PROPERTY = "C27"
 LEVEL = "exploration"
 TECHNIQUE = "Hypothesis-generated histories (busy frames x sequential/concurrent sends) + small exhaustive grid, real Routing on a virtual-time loop vs reference pause model; wire-log oracle"
 RULE = (
-    "history = up to 12 ops: RoutingBusy(wait 0..3000 ms) or a group of 1..4 send_cemi calls (concurrent tasks or one sequential task), "
+    "history = up to 12 ops: RoutingBusy(wait 0..3000 ms), a group of 1..4 send_cemi calls (concurrent tasks or one sequential task), or a RoutingBusy racing the end of the running pause (delivered one loop iteration after the pause timer fired), "
     "each after a generated gap (0..400 ms, biased to 0..40 ms so that bursts fall inside and outside the 10 ms cooldown and the 20 ms spacing), random.random drawn per case; "
     "non-trivial = at least one send_cemi was called while a pause was running or less than 20 ms after another indication (i.e. the throttle had to hold a frame back); distinct by history"
 )
 LEVEL_TEXT = "Generated busy/send histories are executed against the real Routing object in virtual time and the send times of every RoutingIndication and every local L_Data.con are compared with a reference model of the current pause and the 20 ms spacing. Sampled, not exhaustive (a small grid of two-busy-frame schedules is enumerated completely)."
 LEVEL_NOTE = "Single-threaded asyncio on a virtual clock; fake multicast transport; events never tie in virtual time by construction; the count N of busy frames in the moving window follows the rule documented in routing.py."
 ASSUMPTIONS = [
-    "virtual time, fake multicast UDP transport (UDPTransport.create_multicast_sock stubbed); events of different origin never coincide in virtual time (per-op offset of k/64 ms), so exact ties (busy frame arriving at the very instant a pause ends) are not judged",
+    "virtual time, fake multicast UDP transport (UDPTransport.create_multicast_sock stubbed); events of different origin never coincide in virtual time (per-op offset of k/64 ms), the only generated tie is the explicit 'race' op (busy frame handled in the loop iteration after the pause timer fired, before the held senders run; scheduled by watching the internal Event, verdict from the wire log only)",
     "random.random in xknx.io.routing replaced by generated values (k-th value for the k-th pause)",
     "the busy-frame count N that scales the random extension is modelled from the constants/docstrings of routing.py (first frame of a pause not counted, +1 per frame >10 ms after the previous while pausing, decay 5 ms steps after N x 100 ms); violations inside the extension part get their own bucket",
     "a busy frame arriving inside the random extension of a pause (announced wait over, extension not) makes the 'remaining time' ambiguous; such histories are only judged for spacing and confirmations",
@@ -506,7 +508,7 @@ def _grid_shard(ctx, w1: int, w2: int) -> None:
 
 def run(ctx) -> None:
     parallel(ctx, _grid_shard, [(w1, w2) for w1 in _GRID_W for w2 in _GRID_W])
-    parallel(ctx, _hyp_shard, [(ctx.n(150, 4000),)] * 16)
+    parallel(ctx, _hyp_shard, [(ctx.n(120, 2000),)] * 16)
     ctx.exhaustive = False
 
 
